@@ -95,7 +95,7 @@ theorem bodyKind_cl_not_numeric (limit : Nat) (h : Hdrs) (v : Str)
   have hc : cComma ∉ v := by simpa using hcomma
   have : contentLength limit h = none := by
     unfold contentLength
-    simp [hcl, hc, hp]
+    simp [hcl, clPick, hc, hp]
   simp [bodyKind, this]
 
 theorem bodyKind_cl_unequal (limit : Nat) (h : Hdrs) (v p : Str) (ps : List Str)
@@ -108,7 +108,7 @@ theorem bodyKind_cl_unequal (limit : Nat) (h : Hdrs) (v p : Str) (ps : List Str)
     rw [this] at hne; cases hne
   have : contentLength limit h = none := by
     unfold contentLength
-    simp [hcl, hc, hsplit, hne']
+    simp [hcl, clPick, hc, hsplit, hne']
   simp [bodyKind, this]
 
 theorem bodyKind_none (limit : Nat) (h : Hdrs)
